@@ -122,12 +122,14 @@ def _pluralize(s: str) -> str:
 def _generate_hint(ty: type, get_description: Callable[[type], str]) -> str:
     try:
         name = ty.__name__
-    except AttributeError:
+        type_hints = typing.get_type_hints(ty)
+    except (AttributeError, TypeError):
+        # Not a class (e.g. a ClassVar[...] annotation of a described dataclass)
         return str(ty)
     docstring = "\n".join("  " + line for line in (ty.__doc__ or "").split("\n"))
     fields = "\n".join(
         f"  {k}: {get_description(v)}"
-        for k, v in typing.get_type_hints(ty).items()
+        for k, v in type_hints.items()
         if not k.startswith("_")
     )
     return f"{name}:\n{docstring}\n{fields}"
